@@ -23,6 +23,8 @@ LAMS = [0.0, 1e-3, 0.11, 1.0, 5.0]
 def plan(tier, seed):
     q = tier == "quick"
     specs = ec.plan_e2e(seed, 3, MIX, 60 if q else 600, nwcap=12 if q else 20)
+    if not q:
+        specs += ec.fixture_specs()
     for p, n in enumerate(common.split_counts(420 if q else 6000, 12 if q else 24)):
         specs.append(dict(name="entry-%d" % p, mode="interp", what="entry", n=n, seed=[seed, 33, p]))
     for p, n in enumerate(common.split_counts(60 if q else 800, 4 if q else 12)):
@@ -205,7 +207,7 @@ def run_phase_case(res, d):
 
 
 def run_shard(spec, res):
-    if spec["what"] == "e2e":
+    if spec["what"] in ("e2e", "fixture"):
         ec.run_e2e_shard(spec, res, PROPS, lambda run, I: "h" if I.counts.get("mrfs_checked", 0) else None)
         return
     rng = np.random.default_rng(spec["seed"])
